@@ -21,6 +21,7 @@ ASSUMPTIONS = ["HashMap/BTreeSet API semantics: entry().or_default()/get_mut + e
 TECHNIQUE = "static analysis of rustc MIR facts: call-site classification, def-use origin, path counting"
 
 G = gs.G
+CONFIGS = [{"name": "gossipsub-features", "packages": ["libp2p-gossipsub"], "features": "metrics,partial-messages"}]
 ADDITIVE = re.compile(r"(BTreeSet::insert|Extend>::extend|Extend::extend|BTreeSet::append)$")
 INPLACE = re.compile(r"(HashMap::entry|HashMap::get_mut|hash_map::Entry::(or_default|or_insert|or_insert_with|or_insert_with_key)|"
                      r"hash_map::OccupiedEntry::(get_mut|into_mut)|HashMap::iter_mut|HashMap::values_mut)$")
@@ -277,7 +278,8 @@ def check(ctx):
     ctx.ob("who", "mutable borrows of `fanout`", who <= allowed and (B + "filter_publish_candidates") in who, where_f,
            "Behaviour.fanout is mutably borrowed in %s" % sorted(x.replace(B, "") for x in who))
     callers = sorted({s.body.npath for s in prog.callers(G, gs.BEH + r"filter_publish_candidates$")})
-    ctx.ob("who", "filter_publish_candidates is the publish path", callers == [B + "publish"], where_f, "callers: %s" % [c.replace(B, "") for c in callers])
+    ctx.ob("who", "filter_publish_candidates is the publish path", (B + "publish") in callers and set(callers) <= {B + "publish", B + "publish_partial"}, where_f,
+           "callers: %s" % [c.replace(B, "") for c in callers])
     # peer-level removals outside the heartbeat remove exactly the leaving peer
     for fn, peer_pat in (("handle_received_subscriptions", r"peer_id$"), ("on_connection_closed", r"peer_id$")):
         b = ctx.body(G, gs.BEH + fn + "$")
